@@ -955,11 +955,16 @@ def get_input_string(
     def graph():
         return gg.GrammarGraph.from_grammar(grammar)
 
-    return (
-        safe(lambda: json.loads(inp))()
-        .map(DerivationTree.from_parse_tree)
-        .map(lambda tree: eassert(tree, graph().tree_is_valid(tree)))
-        .lash(lambda _: safe(lambda: solver().parse(inp, skip_check=True))())
+    def tree_from_json() -> DerivationTree:
+        tree = DerivationTree.from_parse_tree(json.loads(inp))
+        assert graph().tree_is_valid(tree) and not tree.is_open()
+        return tree
+
+    # If the input is not the JSON representation of a closed derivation tree of the
+    # grammar (which includes inputs that happen to be valid JSON, like `1` or `[]`),
+    # it is parsed as a string.
+    return safe(tree_from_json)().lash(
+        lambda _: safe(lambda: solver().parse(inp, skip_check=True))()
     )
 
 
